@@ -90,7 +90,8 @@ def draw_step(draw, m, kind, cfg):
     if kind in ("create", "create_sf"):
         choices = [""]
         if cfg.get("nest", True):
-            choices += m.roots + m.roots + sorted(m.dirs) + sorted(m.dirs)
+            below = [d for d in sorted(m.dirs) if any(r and d.startswith(r + "/") for r in m.roots)]
+            choices += m.roots + m.roots + sorted(m.dirs) + sorted(m.dirs) + below + below  # chains of nested histories
         elif m.roots:
             choices = m.roots
         root = _pick(draw, choices) if len(choices) > 1 else choices[0]
@@ -206,6 +207,19 @@ def scenarios(draw, cfg):
             steps.append(step)
             m.apply(step)
     return {"root": rootname, "tree": tree, "steps": steps}
+
+
+@st.composite
+def scenarios_deep(draw, cfg):
+    """scenarios(cfg), in a third of the cases with a chain of nested histories (depth 2-4) planted first"""
+    scn = draw(scenarios(cfg))
+    if draw(st.integers(0, 2)) == 0 and "d1" not in scn["tree"]:
+        scn["tree"]["d1"] = {"d2": {"d3": {"d4": {"leaf.txt": "x"}, "f3.txt": "y"}, "f2.txt": "z"}, "f1.txt": "w"}
+        chain = ["d1", "d1/d2", "d1/d2/d3", "d1/d2/d3/d4"]
+        picks = draw(st.lists(st.sampled_from(chain), min_size=2, max_size=4, unique=True))
+        pre = [{"op": "create", "root": d, "formats": draw(cfg.get("formats", gen.formats())), "flags": []} for d in picks]
+        scn["steps"] = pre + scn["steps"]
+    return scn
 
 
 # -------------------------------------------------------------------------------------------- execution
